@@ -222,14 +222,9 @@ func (u *Unit) callMods(c *ssa.CallCommon, m *modSet, seen map[*ssa.Function]boo
 }
 
 func (u *Unit) specMods(spec *UnitSpec, m *modSet) {
-	for k := range spec.Opts {
-		if k == "lock" || k == "unlock" {
-			m.ghosts["$held"] = true
-		}
-	}
-	for _, e := range spec.Ensures {
-		for _, g := range ghostNamesIn(e.Text) {
-			m.ghosts[g] = true
+	for _, it := range spec.Modifies {
+		if strings.HasPrefix(it, "$") {
+			m.ghosts[it] = true
 		}
 	}
 	if !spec.ModSet {
@@ -239,13 +234,14 @@ func (u *Unit) specMods(spec *UnitSpec, m *modSet) {
 		return
 	}
 	for _, it := range spec.Modifies {
+		if strings.HasPrefix(it, "$") {
+			continue
+		}
 		for _, c := range u.resolveModClasses(it, spec.Pkg) {
 			m.classes[c] = true
 		}
 	}
 }
-
-func ghostNamesIn(s string) []string { return nil }
 
 func (u *Unit) fnMods(fn *ssa.Function, m *modSet, seen map[*ssa.Function]bool) {
 	if seen[fn] {
